@@ -224,6 +224,10 @@ _FORCE = [None]
 def force(v):
     if isinstance(v, ChoiceV): return _FORCE[0](v)
     return v
+class FnItem:
+    """a function item used as a value (`sep`, `statement::item` passed as an argument)"""
+    def __init__(self, fn): self.fn = fn
+    def __repr__(self): return "fn-item %s" % self.fn.name
 class Opaque:
     def __init__(self, what): self.what = what
     def __repr__(self): return "<%s>" % self.what
@@ -368,6 +372,7 @@ class Exec:
                 if t.startswith("\\"): return {"n": "\n", "t": "\t", "r": "\r", "0": "\0", "\\": "\\", "'": "'"}.get(t[1], t[1])
                 return t
             if c.startswith('b"'): return Opaque("bytes")
+            if re.match(r"^\{alloc\d+: .*\}$", c): return Opaque("static " + c)
             if "promoted[" in c: return self.promoted(c)
             mnc = re.match(r"^(?:[\w<>':, ]+::)*([A-Z_][A-Z0-9_]*)$", c)
             if mnc and ("named::" + mnc.group(1)) in self.consts: return self.run(self.consts["named::" + mnc.group(1)], [])
@@ -378,7 +383,17 @@ class Exec:
             m = re.match(r"^(\d+(\.\d+)?(e[+-]?\d+)?)f64$", c.replace("_", ""))
             if m: return float(m.group(1))
             raise Unsupported("const " + c)
+        fi = self.fn_item(o)
+        if fi is not None: return fi
         return self.parse_place(o, fr).get()
+    def fn_item(self, o):
+        if not re.match(r"^[A-Za-z][\w:]*$", o) or not o.split("::")[-1][0].islower(): return None
+        cands = [f for n, f in self.fns.items() if n == o or n.endswith("::" + o) or n.split("::")[-1] == o.split("::")[-1]]
+        exact = [f for f in cands if f.name == o]
+        if exact: return FnItem(exact[0])
+        if len(cands) == 1: return FnItem(cands[0])
+        if cands: raise Unsupported("ambiguous function item " + o)
+        return None
     def promoted(self, c):
         segs = strip_gen(c).replace("<'_>", "").split("::")
         best = None
@@ -476,6 +491,8 @@ class Exec:
             return EnumV(ty, idx, [self.operand(x, fr) for x in split_top(m.group(3))])
         m = re.match(r"^([\w:<>'_, &\[\]()]+?)::(\w+)$", r)
         if m and not r.startswith(("copy ", "move ", "const ")):
+            fi = self.fn_item(strip_gen(r))
+            if fi is not None: return fi
             ty, idx = self.variant_index(r); return EnumV(ty, idx, [])
         if re.match(r"^[A-Z]\w*$", r):
             lt = getattr(self, "dest_type", None)
@@ -546,6 +563,11 @@ class Exec:
             v = args[0]
             while isinstance(v, Ref): v = v.get()
             return deep(v)
+        stubs = getattr(self, "stubs", None)
+        if stubs:
+            cs = strip_gen(callee)
+            for suf, fn_ in stubs.items():
+                if cs.endswith(suf): return fn_(args)
         f = self.resolve(callee, args)
         if f is not None:
             mg = re.search(r"::<(\d+)>$", callee)
@@ -622,8 +644,13 @@ class Exec:
                 if m and m.group(2).endswith(")"):
                     rhs = m.group(2); d = 0; j = len(rhs) - 1
                     while True:
-                        if rhs[j] == ")": d += 1
-                        elif rhs[j] == "(":
+                        ch = rhs[j]
+                        if ch == '"' and (j == 0 or rhs[j - 1] != "\\"):
+                            j -= 1                                  # skip a string literal backwards
+                            while not (rhs[j] == '"' and (j == 0 or rhs[j - 1] != "\\")): j -= 1
+                        elif ch == "'" and j >= 2 and rhs[j - 2] == "'": j -= 2          # char literal 'x'
+                        elif ch == ")": d += 1
+                        elif ch == "(":
                             d -= 1
                             if d == 0: break
                         j -= 1
@@ -639,6 +666,10 @@ class Exec:
         return c
     def run(self, f, args):
         fr = {}
+        zst = getattr(f, "_zst", None)
+        if zst is None:
+            zst = f._zst = [(l, t[9:t.index("}")]) for l, t in f.ltypes.items() if t.startswith("{closure@") and "}" in t]
+        for l, pos in zst: fr[l] = StructV("closure@" + pos, [])       # zero-sized closures are never assigned in MIR
         for (p, _), v in zip(f.params, args): fr[p] = v
         bb = "bb0"
         compile_stmt = self.compile_stmt
@@ -697,6 +728,7 @@ class Exec:
             except (IndexError, KeyError, AttributeError, TypeError, ValueError) as e:
                 print("INTERNAL", type(e).__name__, e, "at", self.last); raise
             except Panic as e: out = ("panic", str(e))
+            except RecursionError: out = ("panic", "unbounded recursion (stack overflow in the real compiler)")
             except Infeasible: continue
             results.append((list(self.pc), out))
         return results
@@ -744,8 +776,9 @@ def install(ex):
             if m and "{closure#" in n.split("::")[-1]: closures.setdefault(m.group(1), f)
     def call_closure(cl, args, text=""):
         pos = None
-        if isinstance(cl, Ref): clv = cl.get()
-        else: clv = cl
+        clv = cl
+        while isinstance(clv, Ref): clv = clv.get()
+        if isinstance(clv, FnItem): return ex.run(clv.fn, list(args))
         if isinstance(clv, StructV) and clv.ty.startswith("closure@"): pos = clv.ty[8:]
         if pos is None:
             m = re.search(r"\{closure@([^}]*)\}", text)
@@ -774,7 +807,7 @@ def install(ex):
             if o.disc == 0: return out
             out.append(o.fields[0])
     def model(callee, a):
-        c = strip_gen(callee)
+        c = strip_gen(callee).replace("std::collections::", "")
         # ---------------- deref / index / vec / slice
         if re.match(r"^<Vec<.*> as Deref(Mut)?>::deref(_mut)?$", c): return a[0]
         if re.match(r"^<Vec<.*> as (std::ops::)?Index(Mut)?<usize>>::index(_mut)?$", c):
@@ -1040,6 +1073,13 @@ class Machine:
             from mirsym import models2
             models2.install(self.ex)
         self.ex.base = []
+        STD = ("common", "container", "dict", "list", "math", "maybe", "preamble", "set", "unsafe")
+        def dr(v):
+            while isinstance(v, Ref): v = v.get()
+            return v
+        # sylt_common::library_name / library_source read a static table of include_str!'d files: modelled by their contract
+        self.ex.stubs = {"library_name": lambda a: opt(dr(a[0])) if dr(a[0]) in STD else opt(),
+                         "library_source": lambda a: opt("<std source of %s>" % dr(a[0])) if dr(a[0]) in STD else opt()}
     def qenum(self, mod, ty): return QENUMS[(mod, ty)]
     def explore(self, entry, mk_args, base=()):
         self.ex.base = list(base); self.ex.steps = 0; self.ex.queries = 0
